@@ -61,7 +61,23 @@ def traces(ctx, which, shards, runs, maxlen):
     # positions beyond 2^16: one long run judged run by run without history (LongTrace); the thorough tier uses a sequence
     # that is clean almost everywhere (tens of thousands of windows), the quick tier one with a long ambiguous middle part
     lt = ctx.path("%s_long.ndjson" % which)
-    vlib.kvh(["trace", "minlong", ctx.seed, 68500, 1 if which == "kmermin" else 0, 1 if ctx.thorough() else 0], out=lt)
-    okl = vlib.validate_trace(ctx, "LongTrace", lt, "a 68 500-base sequence (positions beyond 2^16), every run judged from the input bytes", "minit",
-                              timeout=3000)
+    kv = 1 if which == "kmermin" else 0
+    if ctx.thorough():
+        vlib.kvh(["trace", "minlong", ctx.seed, 68500, kv, 1], out=lt)
+        okl = vlib.validate_trace(ctx, "LongTrace", lt, "a 68 500-base clean sequence (positions beyond 2^16), every run judged from the input bytes",
+                                  "minit", timeout=3000)
+    else:
+        okl = True
+    lt2 = ctx.path("%s_long2.ndjson" % which)
+    vlib.kvh(["trace", "minlong", ctx.seed + 1, 310000, kv, 0], out=lt2)
+    okl = vlib.validate_trace(ctx, "LongTrace", lt2, "a 310 000-base sequence: 300 000 bytes without a window, then 4500 windows with one minimiser "
+                              "(positions beyond 2^16), every run judged from the input bytes", "minit", timeout=3000) and okl
+    # every gap length 0..130 of one repeated ambiguous byte between clean stretches just longer than a window
+    gp = ctx.path("%s_gaps.ndjson" % which)
+    vlib.kvh(["trace", "gaps", ctx.seed, which], out=gp)
+    okl = vlib.validate_trace(ctx, "LongTrace", gp, "gaps of 0..130 identical ambiguous bytes", "minit") and okl
+    # count(), last(), nth() on partially consumed iterators
+    ia = ctx.path("%s_iterapi.ndjson" % which)
+    vlib.kvh(["trace", "iterapi", ctx.seed, 600 if ctx.thorough() else 150], out=ia)
+    okl = vlib.validate_trace(ctx, "FactsTrace", ia, "count / last / nth on partially consumed iterators", "iterapi") and okl
     return all(oks) and okl
